@@ -14,6 +14,8 @@ unsigned stateSize(Rng &r, unsigned variant) {
     case 1:
     case 2: return 1;
     case 3: return 3;
+    case 8: return 40;
+    case 9: return 24;
     default: return 2 + r.u(5);
     }
 }
@@ -23,7 +25,14 @@ template <class G> void buildMulti(G &g, Rng &r, unsigned variant) {
     unsigned n = stateSize(r, variant);
     g.resize(n);
     if (variant == 2) g.addMultiedge(0, 0, 2);
-    if (variant >= 4) {
+    if (variant == 8) {
+        for (unsigned t = 0; t < n; ++t)
+            if (t % 8 != 3) g.addMultiedge(5, t, 1 + t % 3);
+    } else if (variant == 9) {
+        for (unsigned a = 0; a < n; ++a)
+            for (unsigned b = 0; b < n; ++b)
+                if (r.chance(1, 2)) g.addMultiedge(a, b, 1 + (a + b) % 4);
+    } else if (variant >= 4) {
         unsigned m = 1 + r.u(n * 2);
         for (unsigned t = 0; t < m; ++t) {
             VertexIndex i = r.u(n), j = r.chance(1, 6) ? i : r.u(n);
@@ -60,7 +69,14 @@ template <class G> void buildWeighted(G &g, Rng &r, unsigned variant) {
     unsigned n = stateSize(r, variant);
     g.resize(n);
     if (variant == 2) g.addEdge(0, 0, 2.5);
-    if (variant >= 4) {
+    if (variant == 8) {
+        for (unsigned t = 0; t < n; ++t)
+            if (t % 8 != 3) g.addEdge(5, t, (double)(1 + t % 7) / 2.0);
+    } else if (variant == 9) {
+        for (unsigned a = 0; a < n; ++a)
+            for (unsigned b = 0; b < n; ++b)
+                if (r.chance(1, 2)) g.addEdge(a, b, (double)(1 + (a + b) % 9) / 4.0);
+    } else if (variant >= 4) {
         unsigned m = 1 + r.u(n * 2);
         for (unsigned t = 0; t < m; ++t) {
             VertexIndex i = r.u(n), j = r.chance(1, 6) ? i : r.u(n);
